@@ -240,6 +240,12 @@ def run_case(i):
     if info["tmpdir"]:
         env["OVNI_TMPDIR"] = os.path.join(wd, "tmp")
         os.makedirs(env["OVNI_TMPDIR"])
+    if i % 20 == 7 and info["mode"] != "huge":
+        # the temporary directory IS the trace directory (OVNI_TMPDIR=ovni, or a job script that sets
+        # both variables to the same place), spelled the same way or not
+        env["OVNI_TMPDIR"] = [os.path.join(wd, "trace"), os.path.join(wd, "trace") + "/",
+                              os.path.join(wd, ".", "trace")][(i // 20) % 3]
+        out["mode"] += "+tmpdir-is-tracedir"
     if info.get("nostdin"):
         env["RTDRV_CLOSE_STDIN"] = "1"
     try:
